@@ -47,6 +47,10 @@ Table(t) ==
                         D("P", "-", "other:*int", "", <<SP>>, <<>>, FALSE, FALSE),
                         D("I", "-", "other:interface {}", "", <<SP>>, <<>>, FALSE, FALSE),
                         D("Z", "Z", "string", "", <<SP>>, <<>>, FALSE, FALSE) >>
+      [] t = "P7" -> << D("CS", "C-S", "list", "string", <<COMMA, SP>>, <<SP>>, FALSE, FALSE),
+                        D("ML", "ML", "list", "string", <<SP>>, <<>>, FALSE, TRUE),
+                        D("CN", "CN", "list", "string", <<COMMA>>, <<LF, CR, TAB, SP>>, FALSE, FALSE),
+                        D("S", "S", "string", "", <<SP>>, <<>>, FALSE, FALSE) >>
       [] t = "P5" -> << D("Paragraph", "", "raw", "", <<>>, <<>>, FALSE, FALSE),
                         D("Name", "Name", "string", "", <<SP>>, <<>>, FALSE, FALSE),
                         D("Count", "Count", "int", "", <<SP>>, <<>>, FALSE, FALSE),
